@@ -158,12 +158,14 @@ StartRoot == IF done = <<>> THEN root0 ELSE done[Len(done)].root
 (* C01: three-valued agreement with the reference language, and the        *)
 (* denotation on acceptance                                                *)
 RefNow(withEof) ==
-  Meaning(StartRoot, FALSE, IF withEof THEN Append(hist, TkEof) ELSE hist, pcfg.nocase)
+  Meaning(StartRoot, FALSE, IF withEof THEN Append(hist, TkEof) ELSE hist,
+          [nocase |-> pcfg.nocase, ignore |-> pcfg.ignore])
+RefModes == {"plain", "comments", "lines", "ignore"}
 P_C01_ViablePrefix ==
-  (Mode \in {"plain", "comments", "lines"} /\ ps.status \in {"more", "fail"}) =>
+  (Mode \in RefModes /\ ps.status \in {"more", "fail", "unspec"}) =>
      RefNow(FALSE).st = ps.status
 P_C01_AcceptIffGrammar ==
-  (Mode \in {"plain", "comments", "lines"} /\ ps.status = "more") =>
+  (Mode \in RefModes /\ ps.status = "more") =>
      LET fin == PStep(ps, TkEof)
          ref == RefNow(TRUE)
      IN /\ (fin.status = "ok") <=> (ref.st = "ok")
@@ -206,6 +208,22 @@ P_C15_Annotation ==
             /\ \A j \in (i+4)..(Len(hist)-1) :
                   ~(hist[j].k = "str" /\ hist[j].v = hist[i+1].v /\ hist[j+1].k = "="))
            => ps.stack[1].sec.opts[idx].cmt = hist[i].v
+
+(* C12: with ignore-unknown an accepted text means what the same text      *)
+(* without its undeclared items means (the reference skips them without    *)
+(* effect, and P_C01_AcceptIffGrammar ties the state machine to it);       *)
+(* no diagnostic; and without the flag the same text is rejected.          *)
+P_C12_Silent ==
+  (Mode = "ignore" /\ ps.status = "more" /\ PStep(ps, TkEof).status = "ok") => PStep(ps, TkEof).diags = <<>>
+HasUnknownItem ==
+  \E i \in 1..Len(hist) : hist[i] = TkStr("zz") /\ (i = 1 \/ hist[i-1].k \in {"str", "}", ")"})
+P_C12_RejectedWithout ==
+  (Mode = "ignore" /\ ps.status = "more" /\ PStep(ps, TkEof).status = "ok") =>
+     LET q == PRun([StartPs EXCEPT !.pc.ignore = FALSE], Append(hist, TkEof))
+         r == Meaning(StartRoot, FALSE, Append(hist, TkEof), [nocase |-> pcfg.nocase, ignore |-> FALSE])
+     IN /\ q.status = r.st
+        /\ (q.status = "ok" => DenSec(RootOf(q)) = DenSec(RootOf(PStep(ps, TkEof))))
+        /\ (q.status = "fail" => q.diags # <<>>)
 
 (* C07 on the model: a user pointer is released at most once, and never     *)
 (* while the store still holds it                                          *)
